@@ -373,10 +373,15 @@ fn is_split_required(transform: &SqlTransform, following: &mut HashSet<String>) 
 
         // Sort will be pushed down the CTEs, so there is no point in splitting for it.
         // Super(Sort(_)) => contains_any(following, ["From", "Join", "Compute", "Aggregate"]),
-        Super(Take(_)) => contains_any(
-            following,
-            ["From", "Join", "Compute", "Filter", "Aggregate", "Sort"],
-        ),
+        Super(Take(take)) => {
+            contains_any(
+                following,
+                ["From", "Join", "Compute", "Filter", "Aggregate", "Sort"],
+            ) ||
+            // DISTINCT is evaluated before ORDER BY .. LIMIT: the first n rows of a sorted
+            // relation cannot be taken in the SELECT that de-duplicates them
+            (!take.sort.is_empty() && following.contains("Distinct"))
+        }
         SqlTransform::DistinctOn(_) => contains_any(
             following,
             [
@@ -388,6 +393,7 @@ fn is_split_required(transform: &SqlTransform, following: &mut HashSet<String>) 
                 "Sort",
                 "Take",
                 "DistinctOn",
+                "Distinct",
             ],
         ),
         SqlTransform::Distinct => contains_any(
